@@ -693,7 +693,9 @@ def output_rules(repo: Repo, rep, P: str):
     sfff = repo.own_method(sr, "process_SFFF")
     from .. import inline
     from ..packed import subst_locals
-    sflat = inline.normalize(repo, sr, sfff, aliases=True)
+    from .. import codec as _codec14
+    sflat = inline.normalize(repo, sr, getattr(sr.methods, "raw", sr.methods).get("process_SFFF", sfff), aliases=True,
+                             also=_codec14.section_helpers(repo, sr))            # `self.read_section(ModuleReader, data, index=…)` read through
     src = " ".join(norm(s) for s in sflat.body)
     ctor = [c for c in ast.walk(sflat) if isinstance(c, ast.Call) and norm(c.func).split(".")[-1] == "ModuleReader"]
     idx = None
